@@ -10,7 +10,7 @@ Theorem C18_table_frame :
     CInv (fun _ => True) c ->
     (match o with
      | OPut t _ _ _ _ | OUpdate t _ _ _ _ _ _ | ODelete t _ _ _ _ _ | OClearTable t | ODeleteTable t
-     | OUpdateTable t _ _ _ | OAddIndex t _ _ _ | OGet t _ _ _ | OQuery t _ _ _ _ _ _ _ _ | OScan t _ _ _ _ _ _ | ODescribeTable t => t = tn
+     | OUpdateTable t _ _ _ | OAddIndex t _ _ _ | OGet t _ _ _ | OQuery t _ _ _ _ _ _ _ _ _ | OScan t _ _ _ _ _ _ _ | ODescribeTable t => t = tn
      | _ => False
      end) ->
     n <> tn -> lookup n (c_tables (fst (step lm lu sdk c o))) = lookup n (c_tables c).
